@@ -263,3 +263,194 @@ Proof.
   change (a ++ [32; c; c2; 32] ++ r :: rest) with (a ++ ([32; c; c2; 32] ++ [r]) ++ rest).
   eapply frame; [exact Ha|]. apply junction_double; assumption.
 Qed.
+
+(* ---- + and - : the sign rule and the exponent rule are part of the language ---- *)
+Local Transparent re_match sci_prefix_ok.
+Lemma sign_facts : forall c, c = 43 \/ c = 45 ->
+  re_match re_BuiltinOpRegex [c; 32] = false /\ cls c = cls 32 /\
+  (re_match re_FloatRegex [45; 32] || re_match re_DecimalRegex [45; 32]) = false /\ sci_prefix_ok [] = false.
+Proof. intros c [-> | ->]; repeat split; vm_compute; reflexivity. Qed.
+Local Opaque re_match sci_prefix_ok.
+
+Lemma step_open_sign : forall s c, l_state s = LNormal -> c = 43 \/ c = 45 ->
+  ((twoback (ring_push c s) =? 101) || (twoback (ring_push c s) =? 69)) && sci_prefix_ok (l_buffer s) = false ->
+  lex_rune s c = match dump_buffer s with Some x => LOk (open_op c (ring_push c x)) | None => LErr (ring_push c s) end.
+Proof.
+  intros s c H Hc Hsci. rewrite lex_rune_body. unfold lex_body. replace (l_state (ring_push c s)) with LNormal by (ds s; simpl in *; congruence).
+  destruct Hc as [-> | ->].
+  - set (X := ring_push 43 s) in *. unfold lex_normal; simpl. rewrite Hsci. unfold with_dump, X. rewrite dump_push. destruct (dump_buffer s); reflexivity.
+  - set (X := ring_push 45 s) in *. unfold lex_normal; simpl. rewrite Hsci. unfold with_dump, X. rewrite dump_push. destruct (dump_buffer s); reflexivity.
+Qed.
+
+Lemma step_builtin_plain_gen : forall s x, l_state s = LBuiltinOperator ->
+  (l_prevrune s =? 45) && can_start_signed_after (l_prebuiltin s) &&
+    (re_match re_FloatRegex [l_prevrune s; x] || re_match re_DecimalRegex [l_prevrune s; x]) = false ->
+  re_match re_BuiltinOpRegex [l_prevrune s; x] = false ->
+  lex_rune s x = lex_normal (append_token (mkTok TSymbol [l_prevrune s]) (set_state LNormal (ring_push x s))) x.
+Proof.
+  intros s x H Hc1 Hm. rewrite lex_rune_body. unfold lex_body. replace (l_state (ring_push x s)) with LBuiltinOperator by (ds s; simpl in *; congruence).
+  unfold lex_builtin.
+  replace (l_prevrune (set_state LNormal (ring_push x s))) with (l_prevrune s) by (ds s; reflexivity).
+  replace (l_prebuiltin (set_state LNormal (ring_push x s))) with (l_prebuiltin s) by (ds s; reflexivity).
+  rewrite Hc1, Hm. reflexivity.
+Qed.
+
+Lemma junction_sign : forall s c r,
+  l_state s = LNormal -> ring_wf s -> c = 43 \/ c = 45 ->
+  (* the exponent rule: not right after the e of a number *)
+  ((twoback (ring_push c s) =? 101) || (twoback (ring_push c s) =? 69)) && sci_prefix_ok (l_buffer s) = false ->
+  (* the sign rule: the minus does not start a negative literal *)
+  (c =? 45) && can_start_signed_after (twoback (ring_push c s)) &&
+    (re_match re_FloatRegex [c; r] || re_match re_DecimalRegex [c; r]) = false ->
+  re_match re_BuiltinOpRegex [c; r] = false ->
+  Junction (lex_all s ([c] ++ [r])) (lex_all s ([32; c; 32] ++ [r])).
+Proof.
+  intros s c r Hst W Hc Hsci Hsign Hnm. destruct (sign_facts c Hc) as (Hsp & Hcl & Hnum & Hsci0).
+  simpl app. simpl lex_all.
+  rewrite (step_open_sign s c Hst Hc Hsci), (step_space s Hst).
+  destruct (dump_buffer s) as [x|] eqn:D; [|simpl; ds s; reflexivity].
+  destruct (dump_result _ _ D) as (Bx & Sx & Px & Rx).
+  assert (ring_wf x) as Wx by (eapply ring_wf_ringof; [symmetry; exact Rx|exact W]).
+  set (B1 := open_op c (ring_push c x)).
+  assert (lex_rune B1 r = lex_normal (append_token (mkTok TSymbol [c]) (set_state LNormal (ring_push r B1))) r) as E1.
+  { rewrite (step_builtin_plain_gen B1 r); [unfold B1; ds x; reflexivity|unfold B1; ds x; reflexivity| |unfold B1; ds x; simpl; exact Hnm].
+    replace (l_prevrune B1) with c by (unfold B1; ds x; reflexivity).
+    replace (l_prebuiltin B1) with (twoback (ring_push c s)); [exact Hsign|].
+    unfold B1. transitivity (twoback (ring_push c x)); [apply twoback_ringof; apply ringof_push; symmetry; exact Rx|ds x; reflexivity]. }
+  rewrite E1. clear E1.
+  set (x1 := ring_push 32 x).
+  assert (lex_rune x1 c = LOk (open_op c (ring_push c x1))) as E2.
+  { rewrite (step_open_sign x1 c); [|unfold x1; ds x; simpl in *; congruence|exact Hc|].
+    - rewrite dump_empty; [reflexivity|unfold x1; ds x; exact Bx].
+    - replace (l_buffer x1) with (@nil Z) by (unfold x1; ds x; simpl in *; congruence). rewrite Hsci0. apply andb_false_r. }
+  rewrite E2. clear E2. set (B1' := open_op c (ring_push c x1)).
+  assert (lex_rune B1' 32 = LOk (append_token (mkTok TSymbol [c]) (set_state LNormal (ring_push 32 B1')))) as E3.
+  { rewrite (step_builtin_plain_gen B1' 32); [|unfold B1'; ds x; reflexivity| |unfold B1'; ds x; simpl; exact Hsp].
+    - replace (l_prevrune B1') with c by (unfold B1'; ds x; reflexivity).
+      unfold lex_normal; simpl. unfold with_dump. rewrite dump_empty; [reflexivity|unfold B1', x1; ds x; exact Bx].
+    - replace (l_prevrune B1') with c by (unfold B1'; ds x; reflexivity).
+      destruct Hc as [-> | ->]; [reflexivity|]. rewrite Hnum. apply andb_false_r. }
+  rewrite E3. clear E3. set (s3 := append_token (mkTok TSymbol [c]) (set_state LNormal (ring_push 32 B1'))).
+  rewrite (step_normal s3 r) by (unfold s3; ds x; reflexivity).
+  match goal with |- Junction (match ?a with _ => _ end) (match ?b with _ => _ end) =>
+    assert (Rres a b) as HR end.
+  { apply lex_normal_R.
+    - unfold B1; ds x; reflexivity.
+    - unfold s3, B1', B1, x1, R; ds x; simpl in *; subst. repeat split; intros; discriminate.
+    - unfold T.
+      assert (twoback (append_token (mkTok TSymbol [c]) (set_state LNormal (ring_push r B1))) = c) as ->.
+      { transitivity (twoback (ring_push r (ring_push c x))); [unfold B1; ds x; reflexivity|apply twoback_push_push; exact Wx]. }
+      assert (twoback (ring_push r s3) = 32) as ->.
+      { transitivity (twoback (ring_push r (ring_push 32 (ring_push c (ring_push 32 x))))); [unfold s3, B1', x1; ds x; reflexivity|].
+        apply twoback_push_push. repeat apply ring_push_wf. exact Wx. }
+      exact Hcl. }
+  destruct (lex_normal _ r) as [u|u]; destruct (lex_normal _ r) as [u'|u']; simpl in *; try contradiction; [exact HR|apply HR].
+Qed.
+
+Theorem op_spacing_sign_single : forall a b c s,
+  lex_all init_lstate a = LOk s -> l_state s = LNormal -> c = 43 \/ c = 45 ->
+  ((twoback (ring_push c s) =? 101) || (twoback (ring_push c s) =? 69)) && sci_prefix_ok (l_buffer s) = false ->
+  (c =? 45) && can_start_signed_after (twoback (ring_push c s)) &&
+    (re_match re_FloatRegex [c; hd 10 (b ++ [10])] || re_match re_DecimalRegex [c; hd 10 (b ++ [10])]) = false ->
+  re_match re_BuiltinOpRegex [c; hd 10 (b ++ [10])] = false ->
+  lex_text (a ++ [c] ++ b ++ [10]) = lex_text (a ++ [32; c; 32] ++ b ++ [10]).
+Proof.
+  intros a b c s Ha Hst Hc Hsci Hsign Hnm.
+  destruct (b ++ [10]) as [|r rest] eqn:E; [destruct b; discriminate|]. simpl in Hsign, Hnm.
+  pose proof (lex_all_ring_wf a init_lstate ring_wf_init) as W. rewrite Ha in W. simpl in W.
+  change (a ++ [c] ++ r :: rest) with (a ++ ([c] ++ [r]) ++ rest).
+  change (a ++ [32; c; 32] ++ r :: rest) with (a ++ ([32; c; 32] ++ [r]) ++ rest).
+  eapply frame; [exact Ha|]. apply junction_sign; assumption.
+Qed.
+
+(* two-rune operators that begin with + or -: only the exponent rule matters *)
+Definition G2s : list (Z * Z) := [(43, 43); (45, 45); (43, 61); (45, 61); (45, 62)].
+
+Local Transparent re_match.
+Lemma g2s_facts : forall c c2, In (c, c2) G2s ->
+  (c = 43 \/ c = 45) /\ re_match re_BuiltinOpRegex [c; c2] = true /\ cls c2 = cls 32 /\
+  (re_match re_FloatRegex [c; c2] || re_match re_DecimalRegex [c; c2]) = false.
+Proof.
+  intros c c2 H. simpl in H.
+  repeat (destruct H as [H|H]; [inversion H; subst; split; [tauto|repeat split; vm_compute; reflexivity]|]). contradiction.
+Qed.
+Local Opaque re_match.
+
+Lemma step_builtin_op2_gen : forall s x, l_state s = LBuiltinOperator ->
+  (re_match re_FloatRegex [l_prevrune s; x] || re_match re_DecimalRegex [l_prevrune s; x]) = false ->
+  re_match re_BuiltinOpRegex [l_prevrune s; x] = true ->
+  lex_rune s x = LOk (append_token (mkTok TSymbol (op2_name (l_prevrune s) x)) (set_state LNormal (ring_push x s))).
+Proof.
+  intros s x H Hn Hm. rewrite lex_rune_body. unfold lex_body. replace (l_state (ring_push x s)) with LBuiltinOperator by (ds s; simpl in *; congruence).
+  unfold lex_builtin.
+  replace (l_prevrune (set_state LNormal (ring_push x s))) with (l_prevrune s) by (ds s; reflexivity).
+  rewrite Hn, andb_false_r, Hm. reflexivity.
+Qed.
+
+Lemma junction_sign_double : forall s c c2 r,
+  l_state s = LNormal -> ring_wf s -> In (c, c2) G2s ->
+  ((twoback (ring_push c s) =? 101) || (twoback (ring_push c s) =? 69)) && sci_prefix_ok (l_buffer s) = false ->
+  Junction (lex_all s ([c; c2] ++ [r])) (lex_all s ([32; c; c2; 32] ++ [r])).
+Proof.
+  intros s c c2 r Hst W Hin2 Hsci. destruct (g2s_facts c c2 Hin2) as (Hc & Hm & Hcl & Hn).
+  destruct (sign_facts c Hc) as (_ & _ & _ & Hsci0).
+  simpl app. simpl lex_all.
+  rewrite (step_open_sign s c Hst Hc Hsci), (step_space s Hst).
+  destruct (dump_buffer s) as [x|] eqn:D; [|simpl; ds s; reflexivity].
+  destruct (dump_result _ _ D) as (Bx & Sx & Px & Rx).
+  assert (ring_wf x) as Wx by (eapply ring_wf_ringof; [symmetry; exact Rx|exact W]).
+  set (B1 := open_op c (ring_push c x)).
+  rewrite (step_builtin_op2_gen B1 c2); [|unfold B1; ds x; reflexivity|unfold B1; ds x; simpl; exact Hn|unfold B1; ds x; simpl; exact Hm].
+  set (W1 := append_token _ (set_state LNormal (ring_push c2 B1))).
+  rewrite (step_normal W1 r) by (unfold W1; ds x; reflexivity).
+  set (x1 := ring_push 32 x).
+  assert (lex_rune x1 c = LOk (open_op c (ring_push c x1))) as E2.
+  { rewrite (step_open_sign x1 c); [|unfold x1; ds x; simpl in *; congruence|exact Hc|].
+    - rewrite dump_empty; [reflexivity|unfold x1; ds x; exact Bx].
+    - replace (l_buffer x1) with (@nil Z) by (unfold x1; ds x; simpl in *; congruence). rewrite Hsci0. apply andb_false_r. }
+  rewrite E2. clear E2. set (B1' := open_op c (ring_push c x1)).
+  rewrite (step_builtin_op2_gen B1' c2); [|unfold B1'; ds x; reflexivity|unfold B1'; ds x; simpl; exact Hn|unfold B1'; ds x; simpl; exact Hm].
+  set (W1' := append_token _ (set_state LNormal (ring_push c2 B1'))).
+  assert (lex_rune W1' 32 = LOk (ring_push 32 W1')) as E3.
+  { rewrite (step_space W1') by (unfold W1'; ds x; reflexivity). rewrite dump_empty; [reflexivity|unfold W1', B1', x1; ds x; exact Bx]. }
+  rewrite E3. clear E3.
+  rewrite (step_normal (ring_push 32 W1') r) by (unfold W1'; ds x; reflexivity).
+  match goal with |- Junction (match ?a with _ => _ end) (match ?b with _ => _ end) =>
+    assert (Rres a b) as HR end.
+  { apply lex_normal_R.
+    - unfold W1; ds x; reflexivity.
+    - unfold W1, W1', B1', B1, x1, R; ds x; simpl in *; subst. repeat split; intros; discriminate.
+    - unfold T.
+      assert (twoback (ring_push r W1) = c2) as ->.
+      { transitivity (twoback (ring_push r (ring_push c2 (ring_push c x)))); [unfold W1, B1; ds x; reflexivity|].
+        apply twoback_push_push. apply ring_push_wf. exact Wx. }
+      assert (twoback (ring_push r (ring_push 32 W1')) = 32) as ->.
+      { transitivity (twoback (ring_push r (ring_push 32 (ring_push c2 (ring_push c (ring_push 32 x)))))); [unfold W1', B1', x1; ds x; reflexivity|].
+        apply twoback_push_push. repeat apply ring_push_wf. exact Wx. }
+      exact Hcl. }
+  destruct (lex_normal _ r) as [u|u]; destruct (lex_normal _ r) as [u'|u']; simpl in *; try contradiction; [exact HR|apply HR].
+Qed.
+
+Theorem op_spacing_sign_double : forall a b c c2 s,
+  lex_all init_lstate a = LOk s -> l_state s = LNormal -> In (c, c2) G2s ->
+  ((twoback (ring_push c s) =? 101) || (twoback (ring_push c s) =? 69)) && sci_prefix_ok (l_buffer s) = false ->
+  lex_text (a ++ [c; c2] ++ b ++ [10]) = lex_text (a ++ [32; c; c2; 32] ++ b ++ [10]).
+Proof.
+  intros a b c c2 s Ha Hst Hin Hsci.
+  destruct (b ++ [10]) as [|r rest] eqn:E; [destruct b; discriminate|].
+  pose proof (lex_all_ring_wf a init_lstate ring_wf_init) as W. rewrite Ha in W. simpl in W.
+  change (a ++ [c; c2] ++ r :: rest) with (a ++ ([c; c2] ++ [r]) ++ rest).
+  change (a ++ [32; c; c2; 32] ++ r :: rest) with (a ++ ([32; c; c2; 32] ++ [r]) ++ rest).
+  eapply frame; [exact Ha|]. apply junction_sign_double; assumption.
+Qed.
+
+(* the operator sets are exactly the two-rune strings BuiltinOpRegex accepts that begin in G / in + - *)
+Local Transparent re_match.
+Example g2_complete :
+  forallb (fun c => forallb (fun c2 =>
+     Bool.eqb (re_match re_BuiltinOpRegex [c; c2])
+              (existsb (fun p => (fst p =? c) && (snd p =? c2)) (G2 ++ G2s ++ [(47, 61); (58, 61)])))
+     [33; 38; 42; 43; 45; 47; 58; 60; 61; 62; 124; 32; 97; 49])
+     [33; 38; 42; 43; 45; 47; 58; 60; 61; 62; 124] = true.
+Proof. vm_compute. reflexivity. Qed.
+Local Opaque re_match.
